@@ -1088,6 +1088,13 @@ func orC09(t *Trans) []Viol {
 			if isDirIn(t.Pre, p) {
 				return vs
 			}
+			// two named tracked paths of which one would have to be a directory for the other (`a` and
+			// `a/b` both staged): they cannot both exist on disk, the outcome is left unconstrained
+			for q := range named {
+				if under(q, p) {
+					return vs
+				}
+			}
 		}
 		if t.Res.Class != "ok" {
 			add("work.restored", "restore of tracked paths was refused: "+clip(t.Res.Stderr, 160))
